@@ -98,6 +98,7 @@ struct VhmAdapter : Adapter {
     if (o == "trav") { std::string r; { xv::Quiet q; r.reserve(512); } for (It t = m->begin(); t != m->end(); ++t) { auto e = *t; long kk = refkey(e), vv = refval(e); xv::Quiet q; r += std::to_string(kk) + "=" + std::to_string(vv) + ","; } return r.empty() ? "-" : r; }
     return "?";
   }
+  bool lock_free(const Case&, const OpSpec& op) override { return op.name == "get"; }   // only try_get_value takes no bucket lock
   void teardown(std::vector<std::string>& out) override {
     std::string r = "final";
     { xv::Quiet q; r.reserve(1024); }
